@@ -1,3 +1,16 @@
--- This module serves as the root of the `BB` library.
--- Import modules here that should be built as part of the library.
-import BB.Basic
+-- root of the BB library (written by harness/mkroot.py)
+import BB.Gen.K
+import BB.Gen.KFloat
+import BB.Gen.KReal
+import BB.Model.Blueprint
+import BB.Model.Codec
+import BB.Model.Describe
+import BB.Model.Element
+import BB.Model.Forge
+import BB.Model.Names
+import BB.Model.Num
+import BB.Model.Sequence
+import BB.Model.Tools
+import BB.Proofs.Blueprint
+import BB.Proofs.Names
+import BB.Properties.C05
